@@ -153,7 +153,9 @@ class _UnconditionalPlanar(AbstractBijection):
         See appendix A1 in https://arxiv.org/pdf/1505.05770.pdf.
         """
         wtu = self._act_scale @ self.weight
-        m_wtu = -1 + jnp.log(1 + nn.softplus(wtu))
+        # With a leaky relu slope s > 1, invertibility needs w^Tu > -1/s (rather than -1)
+        slope = 1 if self.negative_slope is None else max(1, self.negative_slope)
+        m_wtu = -1 / slope + jnp.log(1 + nn.softplus(wtu))
         return self._act_scale + (m_wtu - wtu) * self.weight / norm(self.weight) ** 2
 
     def inverse(self, y, condition=None):
